@@ -1,6 +1,7 @@
 import MorfuseModel.VMOps.Lemmas
 import MorfuseModel.VMOps.Tables
 import MorfuseModel.VMOps.Total
+import MorfuseModel.VMOps.VM
 /-!
 # C04 — script errors are contained: no memory corruption, host keeps control
 
@@ -31,11 +32,11 @@ theorem C04_step_never_ub_partial (fx : Fixes) (op : Op) (args : List Val) (u : 
 /-- The tree under check shows every repair (regenerated flags).  Fails to build on a tree where one
     of the seven undefined behaviours is still reachable; the check then replays the witnesses below
     on the real code. -/
-theorem C04_code_is_repaired : codeFixes = Fixes.all := by decide
+theorem C04_code_is_repaired : codeFixes = Fixes.all ∧ OpAccept.fix_getterRef = true := by decide
 
 /-- `C04_step_never_ub` for the code as it is now. -/
 theorem C04_step_never_ub_code (op : Op) (args : List Val) : (step codeFixes op args).isUb = false := by
-  rw [C04_code_is_repaired]; exact C04_step_never_ub op args
+  rw [C04_code_is_repaired.1]; exact C04_step_never_ub op args
 
 /-! Negations on concrete witnesses for the code as first read (each replayed on the real code by
     `tools/props/c04.py` whenever its repair flag is off). -/
@@ -107,5 +108,57 @@ theorem C04_thrown_classes_are_script_classes :
 example : isWarningClass "ScriptVariableErrors::TypeIndexOutOfRange" = true := by decide
 example : isWarningClass "OutOfRangeContainerException" = false := by decide
 example : executeHandler "ScriptVMErrors::StackError" = some "rethrow" := by decide
+
+/-! ## a script error is confined to the instruction that raised it -/
+
+/-- The reader translated every opcode case, the normal path of every opcode agrees with
+    `OpcodeInfo[]` (one documented exception), every opcode of the enum that `Process` handles has a
+    case, and the `catch (...)` blocks consist of the recognised statements only — they touch this
+    VM's own operand stack and code pointer and rethrow, nothing else. -/
+theorem C04_vm_model_matches_tables :
+    OpAccept.vmActProblems = []
+    ∧ OpAccept.vmActs.all (fun e => VM.tableExceptions.contains e.1 || VM.matchesTable e.1 e.2) = true
+    ∧ OpAccept.opcodes.all (fun o => ["OP_BOOL_TO_VAR", "OP_END", "OP_RETURN"].contains o.1
+        || (OpAccept.vmActs.lookup o.1).isSome) = true
+    ∧ OpAccept.vmCatchStatements.all (fun s => ["ScriptVariable* const pTop = m_Stack.GetTopPtr()",
+        "m_Stack.GetTop().Clear()", "m_Stack.Pop()", "m_Stack.Pop(params)", "pTop->setRefValue(pTop)",
+        "skipField()", "throw", "if constexpr (!noTop) m_Stack.Pop()"].contains s) = true := by decide
+
+/-- Checked on the regenerated error-path terms of all opcodes. -/
+theorem C04_error_confined_check : OpAccept.vmActs.all VM.confinedEntry = true := by decide
+
+/-- **Confinement.**  For every opcode of `ScriptVM::Process` and every way its C++ can end by
+    throwing (cast error, incompatible operator, index out of range, NULL / NIL receiver, failing
+    command, …): the operand stack height and the code position are those of a fall-through
+    execution of the same instruction — `ScriptVM::Execute` writes the warning and resumes at the next
+    instruction with the stack that instruction expects — and the thread was neither ended nor
+    redirected. -/
+theorem C04_error_confined (name : String) (act : OpAccept.Act) (h : (name, act) ∈ OpAccept.vmActs)
+    (r : VM.Kind × VM.Eff) (hr : r ∈ VM.outcomes act) (hk : r.1 = .raised) :
+    (∃ f ∈ VM.fallThrough (VM.outcomes act), r.2.sig = f.sig) ∧ r.2.jumped = false ∧ r.2.stopped = false :=
+  VM.confined_sound ((List.all_eq_true.mp C04_error_confined_check) (name, act) h) r hr hk
+
+/-- Frame: finishing an instruction of thread `i` (normally or with a script error) leaves every other
+    thread's position and stack as they were.  (By construction of the model; its justification in the
+    source is the catch-statement clause of `C04_vm_model_matches_tables`.) -/
+theorem C04_other_threads_untouched (ts : List VM.Thread) (i j : Nat) (N : Int) (e : VM.Eff) (hij : j ≠ i) :
+    (VM.finish ts i N e)[j]? = ts[j]? := by
+  unfold VM.finish
+  rw [List.getElem?_modify]
+  simp [Ne.symm hij]
+
+/-- The slot that `OP_STORE_ARRAY_REF` / `OP_LOAD_ARRAY_VAR` dereference as `m_data.refValue` holds a
+    reference after every outcome of the instructions that `EmitRef` puts before them (field access
+    by variable, by getter, or failed; any number of `[index]` steps, each succeeding or failing). -/
+theorem C04_ref_discipline (e : VM.FieldRefEnd) (n : Nat) : VM.chain true e n = some .ref := by
+  induction n with
+  | zero => cases e <;> rfl
+  | succ n ih => simp [VM.chain, ih, VM.useRef]
+
+/-- The code as first read: `local.owner[1] = 5` applies `setArrayAt` to the getter's value. -/
+theorem C04_ref_witness_getter : VM.chain false .getter 1 = none := by rfl
+
+example : VM.confined false (.seq (.push 1 0) (.branch (.seq (.push 1 0) .throw) .nop)) = false := by decide
+example : (OpAccept.vmActs.any fun e => (VM.outcomes e.2).any (·.1 == .raised)) = true := by decide
 
 end Morfuse.Props.C04
